@@ -343,9 +343,83 @@ func retryBudget(out *cq.Out, seed uint64) {
 	}
 }
 
+// sharedSelector: one client is shared by the goroutines of an application; the selection is one state machine, so
+// the number of times each permitted endpoint is chosen by N concurrent callers is exactly what N sequential callers
+// would get (fair cycling), and no selection fails or panics.
+func sharedSelector(out *cq.Out, seed uint64, tier string) {
+	per := 30000
+	if tier == "thorough" {
+		per = 300000
+	}
+	for _, pref := range []int{int(client.Any), int(client.Secondary)} {
+		t := client.NewVTopology(false)
+		t.Update("u1", "u2", "u3")
+		G := 12
+		counts := make([]map[string]int, G)
+		var wg sync.WaitGroup
+		panics := make(chan string, G)
+		misses := make(chan int, G)
+		for g := 0; g < G; g++ {
+			wg.Add(1)
+			counts[g] = map[string]int{}
+			go func(g int) {
+				defer wg.Done()
+				miss := 0
+				if p, msg := cq.Catch(func() {
+					for i := 0; i < per; i++ {
+						e, ok := t.NextRead(client.ReadPref(pref))
+						if !ok {
+							miss++
+							continue
+						}
+						counts[g][e.URL]++
+					}
+				}); p {
+					panics <- msg
+				}
+				misses <- miss
+			}(g)
+		}
+		wg.Wait()
+		close(panics)
+		close(misses)
+		total := map[string]int{}
+		for _, c := range counts {
+			for u, k := range c {
+				total[u] += k
+			}
+		}
+		desc := map[string]interface{}{"scenario": "shared-selector", "seed": seed, "pref": prefNames[pref], "goroutines": G, "selections_each": per, "counts": total}
+		for msg := range panics {
+			out.Violate("C20:selection-panics-under-concurrent-use", fmt.Sprintf("NextReadEndpoint(%s) panicked while %d goroutines select on one topology: %.150s", prefNames[pref], G, msg), desc)
+		}
+		nm := 0
+		for m := range misses {
+			nm += m
+		}
+		if nm > 0 {
+			out.Violate("C20:no-endpoint-although-live", fmt.Sprintf("%d of %d concurrent selections with preference %s returned no endpoint although live permitted ones exist", nm, G*per, prefNames[pref]), desc)
+		}
+		permitted := []string{"u1", "u2", "u3"}
+		if pref == int(client.Secondary) {
+			permitted = []string{"u2", "u3"}
+		}
+		want := G * per / len(permitted)
+		for _, u := range permitted {
+			if d := total[u] - want; d > 1 || d < -1 {
+				out.Violate("C20:unfair-cycling-under-concurrent-use", fmt.Sprintf("%d concurrent selections with preference %s chose %v; fair cycling gives each permitted endpoint %d (+-1)", G*per, prefNames[pref], total, want), desc)
+				break
+			}
+		}
+		out.Case(fmt.Sprintf("shared-selector:%d", pref), true)
+		out.Count("shared_selector_selections", G*per)
+	}
+}
+
 func clientScenarios(out *cq.Out, rng *cq.Rng, seed uint64, tier string) {
 	leaderLoss(out, seed)
 	retryBudget(out, seed)
+	sharedSelector(out, seed, tier)
 	n := 12
 	if tier == "thorough" {
 		n = 60
